@@ -20,7 +20,7 @@ ASSUMPTIONS = ["trusted substitutions: the loop's selector is a stub whose selec
                "virtual deadline, loop.time() is the controller clock, _write_to_self() sets the flag, concurrent.futures.Future as used by "
                "asynciothreadsafescheduler.py is replaced by a cooperative VFuture",
                "line-granular serialisation; threading primitives replaced by instrumented equivalents"]
-REQUIRED = {"decided_runs": {"quick": 500, "thorough": 5000}, "preemptive_switches": {"quick": 800, "thorough": 8000},
+REQUIRED = {"decided_runs": {"quick": 500, "thorough": 5000}, "registered_foreign_runs": {"quick": 100, "thorough": 1000}, "preemptive_switches": {"quick": 800, "thorough": 8000},
             "disposes_before_start": {"quick": 400, "thorough": 4000}, "actions_started": {"quick": 300, "thorough": 3000},
             "set:situations": 3}
 UNIT_TIMEOUT = {"quick": 240, "thorough": 3000}
@@ -82,12 +82,15 @@ def gen_program(r: Any, situation: str) -> dict:
         disp = r.choice([None, 0.0, 0.0, delay / 2, delay, delay + 0.1]) if delay else r.choice([None, 0.0, 0.0, 0.05])
         items.append({"mode": mode, "delay": delay, "dispose_after": disp})
     sched = "ts" if situation == "foreign" else r.choice(["ts", "plain"])
-    return {"situation": situation, "sched": sched, "items": items}
+    # registered: the disposing foreign thread has made the loop its policy-current loop with asyncio.set_event_loop()
+    # (the usual main-thread set-up when the loop itself runs in a worker thread); it is still not RUNNING there
+    return {"situation": situation, "sched": sched, "items": items, "registered": situation == "foreign" and r.random() < 0.5}
 
 
 HAND = [
     {"situation": "foreign", "sched": "ts", "items": [{"mode": "imm", "delay": 0.0, "dispose_after": 0.0}]},
     {"situation": "foreign", "sched": "ts", "items": [{"mode": "rel", "delay": 0.2, "dispose_after": 0.2}]},
+    {"situation": "foreign", "sched": "ts", "registered": True, "items": [{"mode": "rel", "delay": 0.2, "dispose_after": 0.0}]},
     {"situation": "stopped", "sched": "ts", "items": [{"mode": "rel", "delay": 0.2, "dispose_after": 0.0}, {"mode": "imm", "delay": 0.0, "dispose_after": None}]},
     {"situation": "loop", "sched": "plain", "items": [{"mode": "imm", "delay": 0.0, "dispose_after": 0.0}, {"mode": "rel", "delay": 0.1, "dispose_after": 0.1}]},
 ]
@@ -138,6 +141,9 @@ def scenario(c: Any, P: dict) -> dict:
         lt.start()
         c.sleep(1.5)
     elif situation == "foreign":
+        if P.get("registered"):
+            import asyncio
+            asyncio.set_event_loop(loop)
         lt.start()
         # the statement covers a foreign-thread dispose "while the loop is running": a loop that is only just being
         # started concurrently with dispose() is outside it, so wait until run_forever() has marked the loop running
@@ -168,6 +174,9 @@ def scenario(c: Any, P: dict) -> dict:
         c.sleep(1.5)
     loop.call_soon_threadsafe(loop.stop)
     lt.join()
+    if P.get("registered"):
+        import asyncio
+        asyncio.set_event_loop(None)
     try:
         loop.close()
     except Exception:  # noqa: BLE001
@@ -191,7 +200,7 @@ def scenario(c: Any, P: dict) -> dict:
         if dr is None and st is None and "disp" in it:
             viol.append(("C33:%s:%s:undisposed-action-never-ran" % (situation, P["sched"]), {"item": i}))
     exc = [(n, repr(e)) for n, e in c.thread_exc]
-    return {"viol": viol, "obs": {"actions_started": started, "disposes_before_start": before}, "sig": {"started": sorted(i for i in info if "start" in info[i])},
+    return {"viol": viol, "obs": {"actions_started": started, "disposes_before_start": before, "registered_foreign_runs": 1 if P.get("registered") else 0}, "sig": {"started": sorted(i for i in info if "start" in info[i])},
             "decided": any(it["dispose_after"] is not None for it in P["items"]), "thread_exc": exc}
 
 
